@@ -203,20 +203,23 @@ Theorem dual_proof_sound_wrt_history hs p src tgt salh sh th tg :
   (exists g, tx_at hs src = Some g /\ hashed_fields sh = hashed_fields g /\ salh = alh_v H g) \/ Collision.
 Proof. unfold verify_dual_proof. apply dual_proof_gen_sound_wrt_history. Qed.
 
-(* TAMPER EVIDENCE, VerifyDualProofV2 (sourceTxID < targetTxID; for sourceTxID = targetTxID the
-   verifier compares neither the two headers nor the two Alh values with each other, see
-   Proofs/Refuted.v dual_proof_v2_same_id_refuted) *)
-Theorem dual_proof_v2_sound_wrt_history hs p src tgt salh sh th tg :
-  wf_hist H hs ->
-  tx_at hs tgt = Some tg ->
-  d2_src p = Some sh -> d2_tgt p = Some th -> hdr_valid sh = true -> hdr_valid th = true ->
-  len32 (d2_incl p) ->
-  src <> tgt ->
-  verify_dual_proof_v2 H (Some p) src tgt salh (alh_v H tg) = Ok true ->
-  (exists g, tx_at hs src = Some g /\ hashed_fields sh = hashed_fields g /\ salh = alh_v H g) \/ Collision.
+(* what an accepted V2 proof has checked *)
+Lemma verify_dual_proof_v2_inv p src tgt salh talh :
+  verify_dual_proof_v2 H (Some p) src tgt salh talh = Ok true ->
+  exists sh th,
+    d2_src p = Some sh /\ d2_tgt p = Some th /\ h_id sh = src /\ h_id th = tgt /\
+    src <> 0 /\ src <= tgt /\ alh H sh = Ok salh /\ alh H th = Ok talh /\
+    h_bltxid sh = src - 1 /\ h_bltxid th = tgt - 1 /\
+    (src = tgt -> salh = talh) /\
+    (src < tgt ->
+       verify_inclusion H (d2_incl p) src (tgt - 1) (leaf_for H salh) (h_blroot th) = true /\
+       (if src =? 1
+        then verify_consistency_fixed H (d2_cons p) src (tgt - 1) (leaf_for H salh) (h_blroot th)
+        else verify_consistency_fixed H (d2_cons p) (src - 1) (tgt - 1) (h_blroot sh) (h_blroot th)) = Ok true).
 Proof.
-  intros W Tt Ps Pt Vs Vt F Ne V. unfold verify_dual_proof_v2, verify_dual_proof_v2_gen in V.
-  rewrite Ps, Pt in V.
+  intros V. unfold verify_dual_proof_v2, verify_dual_proof_v2_gen in V.
+  destruct (d2_src p) as [sh|]; [|discriminate].
+  destruct (d2_tgt p) as [th|]; [|discriminate].
   destruct (N.eqb_spec (h_id sh) 0) as [|S0]; [discriminate|].
   destruct (N.eqb_spec (h_id sh) src) as [Is|]; [|discriminate].
   destruct (N.eqb_spec (h_id th) tgt) as [It|]; [|discriminate].
@@ -226,20 +229,46 @@ Proof.
   destruct (bytes_eqb salh a) eqn:Eqa; cbn [negb] in V; [|discriminate].
   apply list_eqb_eq in Eqa. subst a.
   destruct (alh H th) as [b| |] eqn:Eb; cbn [bind] in V; try discriminate.
-  destruct (bytes_eqb (alh_v H tg) b) eqn:Eqb; cbn [negb] in V; [|discriminate].
+  destruct (bytes_eqb talh b) eqn:Eqb; cbn [negb] in V; [|discriminate].
   apply list_eqb_eq in Eqb. subst b.
-  destruct (negb (h_id sh - 1 =? h_bltxid sh) || negb (h_id th - 1 =? h_bltxid th)) eqn:Lk; [discriminate|].
-  apply orb_false_elim in Lk as [_ Lk]. apply negb_false_iff in Lk. apply N.eqb_eq in Lk.
-  destruct (N.eqb_spec src tgt) as [|_]; [contradiction|].
-  destruct (verify_inclusion H (d2_incl p) src (h_bltxid th) (leaf_for H salh) (h_blroot th)) eqn:Vi;
-    cbn [negb] in V; [|discriminate].
+  destruct (N.eqb_spec (h_id sh - 1) (h_bltxid sh)) as [L1|]; [|discriminate].
+  destruct (N.eqb_spec (h_id th - 1) (h_bltxid th)) as [L2|]; [|discriminate].
+  cbn [negb orb] in V.
+  exists sh, th. rewrite <- L2, It in V.
+  destruct (N.eqb_spec src tgt) as [E|Ne].
+  - injection V as V. apply list_eqb_eq in V.
+    repeat split; auto; try lia; intros; lia.
+  - destruct (verify_inclusion H (d2_incl p) src (tgt - 1) (leaf_for H salh) (h_blroot th)) eqn:Vi;
+      cbn [negb] in V; [|discriminate].
+    rewrite <- L1, Is in V.
+    repeat split; auto; try lia; intros; lia.
+Qed.
+
+(* TAMPER EVIDENCE, VerifyDualProofV2 *)
+Theorem dual_proof_v2_sound_wrt_history hs p src tgt salh sh th tg :
+  wf_hist H hs ->
+  tx_at hs tgt = Some tg ->
+  d2_src p = Some sh -> d2_tgt p = Some th -> hdr_valid sh = true -> hdr_valid th = true ->
+  len32 (d2_incl p) ->
+  verify_dual_proof_v2 H (Some p) src tgt salh (alh_v H tg) = Ok true ->
+  (exists g, tx_at hs src = Some g /\ hashed_fields sh = hashed_fields g /\ salh = alh_v H g) \/ Collision.
+Proof.
+  intros W Tt Ps Pt Vs Vt F V.
+  apply verify_dual_proof_v2_inv in V
+    as (sh' & th' & Ps' & Pt' & Is & It & S0 & Le & Ea & Eb & Bs & Bt & Ceq & Clt).
+  rewrite Ps in Ps'. rewrite Pt in Pt'. injection Ps' as <-. injection Pt' as <-.
   apply alh_ok in Ea as [Ea _]. apply alh_ok in Eb as [Eb _].
   pose proof (wf_valid H hs W _ _ Tt) as Vg.
-  destruct (alh_binding H H_len th tg Vt Vg (eq_sym Eb)) as [Ef|C]; auto.
-  assert (EB : h_bltxid th = h_bltxid tg) by (unfold hashed_fields in Ef; congruence).
-  assert (ER : h_blroot th = h_blroot tg) by (unfold hashed_fields in Ef; congruence).
-  rewrite EB, ER in Vi.
-  apply (incl_pins_source hs sh tg (d2_incl p) src salh); eauto. lia.
+  destruct (N.eq_dec src tgt) as [E|Ne].
+  - specialize (Ceq E). subst tgt.
+    destruct (alh_binding H H_len sh tg Vs Vg ltac:(congruence)) as [Ef|C]; auto.
+    left. exists tg. rewrite E. auto.
+  - destruct (Clt ltac:(lia)) as [Vi _].
+    destruct (alh_binding H H_len th tg Vt Vg (eq_sym Eb)) as [Ef|C]; auto.
+    assert (EB : h_bltxid th = h_bltxid tg) by (unfold hashed_fields in Ef; congruence).
+    assert (ER : h_blroot th = h_blroot tg) by (unfold hashed_fields in Ef; congruence).
+    rewrite ER in Vi. rewrite <- Bt, EB in Vi.
+    apply (incl_pins_source hs sh tg (d2_incl p) src salh); eauto. lia.
 Qed.
 
 (* with the header pinned, an accepted entry inclusion proof against its Eh pins the entry as SOME
